@@ -435,6 +435,11 @@ Definition f_pos (b absolute : bool) (cur : Z) (s : strm) : Z * strm :=
    the element's repetition and the new modal repetition *)
 Definition f_rep (b : bool) (cur : rrep) : M (rrep * rrep) :=
   if b then (do r <- s_rep cur; rret (r, r)) else rret (RR_none, cur).
+(* `if (info & 0x20) { modal_points.count = 1; oasis_read_point_list(in, factor, closed, modal_points); }` *)
+Definition f_plist (b closed : bool) (cur : list pt) : M (list pt) := if b then s_plist closed else rret cur.
+(* `if (info & 0x80) oasis_read(&modal_ctrapezoid_type, 1, 1, in);` *)
+Definition f_ctype (b : bool) (cur : N) : M N :=
+  if b then (do o <- lift rd1; rret (match o with Some t => t | None => cur end)) else rret cur.
 Definition f_xy (bx by_ absolute : bool) (cur : pt) (s : strm) : pt * strm :=
   let (x, s1) := f_pos bx absolute (fst cur) s in
   let (y, s2) := f_pos by_ absolute (snd cur) s1 in
@@ -443,6 +448,17 @@ Definition f_xy (bx by_ absolute : bool) (cur : pt) (s : strm) : pt * strm :=
 Definition f_nref (by_number : bool) : M nref :=
   if by_number then lift (fun s => let (n, s1) := s_uint s in (NNum n, s1))
   else (do str <- s_string true; rret (NName str)).
+
+(* `if (info & bit) { explicit name; modal = this element; } else { copy from the modal element }`: the name used and
+   the new modal pointer; a NULL modal pointer is dereferenced *)
+Definition f_name (b by_number : bool) (cur : option nref) : M (nref * option nref) :=
+  if b then (do t <- f_nref by_number; rret (t, Some t))
+  else match cur with
+       | Some t => rret (t, Some t)
+       | None => fun _ => RCrash
+       end.
+(* a TRAPEZOID delta that the record code leaves out is 0 *)
+Definition f_delta (absent : bool) : M Z := if absent then rret 0%Z else lift s_int.
 
 Definition with_geom (m : rmodal) (layer dtype : N) (pos : pt) (w h : N) (rp : rrep) : rmodal :=
   mkRM (r_abs m) layer dtype (r_tlayer m) (r_ttype m) (r_ppos m) (r_tpos m) pos w h rp (r_text m) (r_pcell m)
@@ -456,7 +472,7 @@ Definition m_rectangle (m : rmodal) (info : N) : M (relem * rmodal) :=
   do layer <- lift (f_u32 (tb info 0) (r_layer m));
   do dtype <- lift (f_u32 (tb info 1) (r_dtype m));
   do w <- lift (f_uint (tb info 6) (r_w m));
-  do h <- (if tb info 5 then lift s_uint else rret (if tb info 7 then w else r_h m));
+  do h <- lift (f_uint (tb info 5) (if tb info 7 then w else r_h m));
   do pos <- lift (f_xy (tb info 4) (tb info 3) (r_abs m) (r_gpos m));
   do '(rp, mr) <- f_rep (tb info 2) (r_rep m);
   rret (GPolygon layer dtype (rect_points pos w h) rp, with_geom m layer dtype pos w h mr).
@@ -469,7 +485,7 @@ Definition with_poly (m : rmodal) (pts : list pt) : rmodal :=
 Definition m_polygon (m : rmodal) (info : N) : M (relem * rmodal) :=
   do layer <- lift (f_u32 (tb info 0) (r_layer m));
   do dtype <- lift (f_u32 (tb info 1) (r_dtype m));
-  do pts <- (if tb info 5 then s_plist true else rret (r_poly m));
+  do pts <- f_plist (tb info 5) true (r_poly m);
   do pos <- lift (f_xy (tb info 4) (tb info 3) (r_abs m) (r_gpos m));
   do '(rp, mr) <- f_rep (tb info 2) (r_rep m);
   rret (GPolygon layer dtype (map (fun v => padd v pos) ((0, 0)%Z :: pts)) rp,
@@ -491,22 +507,24 @@ Definition path_end (hw : N) (u v : Z) : rend :=
   if (u =? 0)%Z && (v =? 0)%Z then RE_flush
   else if (u =? Z.of_N hw)%Z && (v =? Z.of_N hw)%Z then RE_half
   else RE_ext u v.
+(* `if (info & 0x80) { oasis_read(&extension_scheme, 1, 1, in); switch ... switch ... }` *)
+Definition m_path_ext (b : bool) (hw : N) (exs exe : Z) : M (Z * Z) :=
+  if b then
+    do osch <- lift rd1;
+    match osch with
+    | Some sch =>
+        do u <- lift (f_ext (N.land (N.shiftr sch 2) 3) hw exs);
+        do v <- lift (f_ext (N.land sch 3) hw exe);
+        rret (u, v)
+    | None => rret (exs, exe)                  (* end of file: nothing more is read *)
+    end
+  else rret (exs, exe).
 Definition m_path (m : rmodal) (info : N) : M (relem * rmodal) :=
   do layer <- lift (f_u32 (tb info 0) (r_layer m));
   do dtype <- lift (f_u32 (tb info 1) (r_dtype m));
   do hw <- lift (f_uint (tb info 6) (r_hw m));
-  do '(exs, exe) <-
-    (if tb info 7 then
-       do osch <- lift rd1;
-       match osch with
-       | Some sch =>
-           do u <- lift (f_ext (N.land (N.shiftr sch 2) 3) hw (r_exs m));
-           do v <- lift (f_ext (N.land sch 3) hw (r_exe m));
-           rret (u, v)
-       | None => rret (r_exs m, r_exe m)        (* end of file: nothing more is read *)
-       end
-     else rret (r_exs m, r_exe m));
-  do pts <- (if tb info 5 then s_plist false else rret (r_path m));
+  do '(exs, exe) <- m_path_ext (tb info 7) hw (r_exs m) (r_exe m);
+  do pts <- f_plist (tb info 5) false (r_path m);
   do pos <- lift (f_xy (tb info 4) (tb info 3) (r_abs m) (r_gpos m));
   (* path->spine.append(pos); path->segment(skip_first, NULL, NULL, true): with no point
      `last_ctrl = point_array[point_array.count - 2]` reads before the array *)
@@ -539,8 +557,8 @@ Definition m_trapezoid (code : N) (m : rmodal) (info : N) : M (relem * rmodal) :
   do dtype <- lift (f_u32 (tb info 1) (r_dtype m));
   do w <- lift (f_uint (tb info 6) (r_w m));
   do h <- lift (f_uint (tb info 5) (r_h m));
-  do da <- (if code =? 25 then rret 0%Z else lift s_int);
-  do db <- (if code =? 24 then rret 0%Z else lift s_int);
+  do da <- f_delta (code =? 25);
+  do db <- f_delta (code =? 24);
   do pos <- lift (f_xy (tb info 4) (tb info 3) (r_abs m) (r_gpos m));
   do '(rp, mr) <- f_rep (tb info 2) (r_rep m);
   rret (GPolygon layer dtype (trap_pts (tb info 7) pos w h da db) rp, with_geom m layer dtype pos w h mr).
@@ -566,9 +584,7 @@ Definition with_ctype (m : rmodal) (ty : N) : rmodal :=
 Definition m_ctrapezoid (m : rmodal) (info : N) : M (relem * rmodal) :=
   do layer <- lift (f_u32 (tb info 0) (r_layer m));
   do dtype <- lift (f_u32 (tb info 1) (r_dtype m));
-  do ty <- (if tb info 7 then
-              do o <- lift rd1; rret (match o with Some t => t | None => r_ctype m end)
-            else rret (r_ctype m));
+  do ty <- f_ctype (tb info 7) (r_ctype m);
   do w <- lift (f_uint (tb info 6) (r_w m));
   do h <- lift (f_uint (tb info 5) (r_h m));
   do pos <- lift (f_xy (tb info 4) (tb info 3) (r_abs m) (r_gpos m));
@@ -595,12 +611,7 @@ Definition with_text (m : rmodal) (t : option nref) (layer ttype : N) (pos : pt)
        rp t (r_pcell m) (r_poly m) (r_path m) (r_hw m) (r_exs m) (r_exe m) (r_ctype m) (r_rad m)
        (r_pname m) (r_pvals m).
 Definition m_text (m : rmodal) (info : N) : M (relem * rmodal) :=
-  do '(txt, mt) <-
-    (if tb info 6 then do t <- f_nref (tb info 5); rret (t, Some t)
-     else match r_text m with
-          | Some t => rret (t, Some t)
-          | None => fun _ => RCrash                               (* modal_text_string->text *)
-          end);
+  do '(txt, mt) <- f_name (tb info 6) (tb info 5) (r_text m);       (* modal_text_string->text *)
   do layer <- lift (f_u32 (tb info 0) (r_tlayer m));
   do ttype <- lift (f_u32 (tb info 1) (r_ttype m));
   do pos <- lift (f_xy (tb info 4) (tb info 3) (r_abs m) (r_tpos m));
@@ -614,16 +625,12 @@ Definition with_place (m : rmodal) (c : option nref) (pos : pt) (rp : rrep) : rm
        (r_pname m) (r_pvals m).
 Definition f_oreal (b : bool) (s : strm) : option real * strm :=
   if b then let (v, s1) := s_real s in (Some v, s1) else (None, s).
+Definition m_place_tr (code info : N) : M ptrans :=
+  if code =? 17 then rret (PT_quarter (N.land (N.shiftr info 1) 3))
+  else (do mag <- lift (f_oreal (tb info 2)); do ang <- lift (f_oreal (tb info 1)); rret (PT_general mag ang)).
 Definition m_placement (code : N) (m : rmodal) (info : N) : M (relem * rmodal) :=
-  do '(c, mc) <-
-    (if tb info 7 then do c <- f_nref (tb info 6); rret (c, Some c)
-     else match r_pcell m with
-          | Some c => rret (c, Some c)
-          | None => fun _ => RCrash                               (* modal_placement_cell->type *)
-          end);
-  do tr <-
-    (if code =? 17 then rret (PT_quarter (N.land (N.shiftr info 1) 3))
-     else do mag <- lift (f_oreal (tb info 2)); do ang <- lift (f_oreal (tb info 1)); rret (PT_general mag ang));
+  do '(c, mc) <- f_name (tb info 7) (tb info 6) (r_pcell m);       (* modal_placement_cell->type *)
+  do tr <- m_place_tr code info;
   do pos <- lift (f_xy (tb info 5) (tb info 4) (r_abs m) (r_ppos m));
   do '(rp, mr) <- f_rep (tb info 3) (r_rep m);
   rret (GRef c false tr (tb info 0) pos rp, with_place m mc pos mr).
@@ -665,18 +672,15 @@ Fixpoint s_pvals (fuel : nat) (num : N) (acc : list rpval) (s : strm) : res (lis
                 end
       end
   end.
-Definition m_property (m : rmodal) (info : N) : M (rprop * rmodal) :=
-  do '(nm, mn) <-
-    (if tb info 2 then do n <- f_nref (tb info 1); rret (n, Some n)
-     else match r_pname m with
-          | Some n => rret (n, Some n)
-          | None => fun _ => RCrash                               (* modal_property->name *)
-          end);
-  if tb info 3 then rret (mkGP nm (r_pvals m), with_prop m mn (r_pvals m))
+Definition m_prop_vals (info : N) (cur : list rpval) : M (list rpval) :=
+  if tb info 3 then rret cur
   else
     do cnt <- (let u := N.shiftr info 4 in if u =? 15 then lift s_uint else rret u);
-    do vs <- (fun s => s_pvals (S (S (length (s_bs s)))) cnt [] s);
-    rret (mkGP nm vs, with_prop m mn vs).
+    fun s => s_pvals (S (S (length (s_bs s)))) cnt [] s.
+Definition m_property (m : rmodal) (info : N) : M (rprop * rmodal) :=
+  do '(nm, mn) <- f_name (tb info 2) (tb info 1) (r_pname m);       (* modal_property->name *)
+  do vs <- m_prop_vals info (r_pvals m);
+  rret (mkGP nm vs, with_prop m mn vs).
 
 (* ================================================================== the record switch *)
 (* ErrorCode values the reader sets itself *)
